@@ -322,7 +322,7 @@ def rule_C02(c):
             if not brs or not latch:
                 continue
             body_entry = brs[0].succ[0]
-            accs = {}
+            accs, steps, incs = {}, {}, {}
             for n in g.nodes:
                 if n.kind != "stmt" or n.tag == "inc" or n.expr is None:
                     continue
@@ -334,6 +334,14 @@ def rule_C02(c):
                 for x in walk(n.expr):
                     if x.get("kind") == "CompoundAssignOperator" and x["opcode"] == "+=":
                         accs.setdefault(g.r(x["inner"][0]), []).append(n)
+                        # the step `x += A[k]`: k must itself change once per iteration of this loop
+                        for y in walk(x["inner"][1]):
+                            if y.get("kind") == "ArraySubscriptExpr":
+                                for z in walk(y["inner"][1]):
+                                    if z.get("kind") == "DeclRefExpr":
+                                        steps.setdefault(z["referencedDecl"]["name"], []).append(n)
+                    elif x.get("kind") == "UnaryOperator" and x.get("opcode") in ("++", "--"):
+                        incs.setdefault(g.r(x["inner"][0]), []).append(n)
             if not accs:
                 continue
             try:
@@ -341,7 +349,24 @@ def rule_C02(c):
             except cast.Unsupported as e:
                 c.und("C02.R5", "%s/loop@%s" % (fn, h.line), c.pos(g, h), str(e))
                 continue
-            for var, nodes in accs.items():
+            latch_vars = set()
+            for l_ in latch:
+                for x in walk(l_.expr):
+                    if x.get("kind") in ("UnaryOperator", "CompoundAssignOperator") and x.get("opcode") in ("++", "--", "+=", "-="):
+                        latch_vars.add(g.r(x["inner"][0]))
+            for k, users in steps.items():
+                if k in latch_vars:
+                    continue
+                adv = incs.get(k, []) + accs.get(k, [])
+                badp = None
+                for p_ in ps:
+                    if p_[-1] in latch and any(u in p_ for u in users) and not any(n in p_ for n in adv):
+                        badp = "→".join(str(n.line) for n in p_ if n.line)
+                        break
+                nacc += 1
+                c.check(badp is None, "C02.R5", "%s/offset-step-index:%s" % (fn, k), c.pos(g, h), "the index `%s` selecting the step of a running offset changes once per iteration of the same loop" % k,
+                        "running offset is advanced by an array element selected by `%s`, but `%s` does not change on the loop path through lines %s: the same length is used for every element of the group" % (k, k, badp))
+            for var, nodes in list(accs.items()) + [(k, v) for k, v in incs.items() if k not in accs]:
                 nacc += 1
                 bad = None
                 for p_ in ps:
@@ -700,7 +725,37 @@ def rule_affine_casts(c, rule):
                             ok = True
                 c.check(ok, rule, "%s/affine-cast:%s" % (fn, base), c.pos(g, node), "affine reinterpretation of an object that is affine by construction",
                         "`%s` (a general, possibly Jacobian point) is reinterpreted as an affine point in %s without a preceding conversion: results are wrong whenever Z ≠ 1 (e.g. for the output of a previous addition)" % (g.r(inner), fn))
+    # coordinate reads: x / y of a point object leave the point abstraction (serialisation, sign bit, printing)
+    # only for an object that a dominating E?_to_affine wrote; the readers, which *construct* the point
+    # from its affine coordinates (and set Z=1 afterwards), are the only other place coordinates are touched
+    m_ = 0
+    for fn in sorted(c.p.funcs):
+        try:
+            g = c.p.cfg(fn)
+        except cast.Unsupported:
+            continue
+        params = [p_["name"] for p_ in c.p.params(fn)]
+        for node in g.nodes:
+            if node.expr is None:
+                continue
+            for x in walk(node.expr):
+                if x.get("kind") != "MemberExpr" or x.get("name") not in ("x", "y"):
+                    continue
+                bt = x["inner"][0].get("type", {}).get("qualType", "")
+                if not any(t_ in bt.replace("const ", "").replace(" *", "").split() for t_ in ("E1", "E2")):
+                    continue
+                base = base_name(g.r(x["inner"][0]))
+                m_ += 1
+                if params and base == params[0] and fn in ("E1_read_bytes", "E2_read_bytes"):
+                    continue  # constructor of the point from its affine coordinates
+                ok = False
+                for m, call in g.calls():
+                    if callee_name(call) in ("E1_to_affine", "E2_to_affine") and base_name(g.r(call["inner"][1])) == base and g.dominates(m, node):
+                        ok = True
+                c.check(ok, rule, "%s/coordinate-read:%s.%s" % (fn, base, x.get("name")), c.pos(g, node), "coordinate of an object written by a dominating E?_to_affine",
+                        "coordinate `%s` of the general (Jacobian) point `%s` is used in %s without a preceding conversion to affine: the value is x·Z² / y·Z³ rather than the coordinate whenever Z ≠ 1" % (x.get("name"), base, fn))
     c.stats["affine_casts"] = n
+    c.stats["coordinate_reads"] = m_
     return n
 
 
